@@ -222,6 +222,7 @@ func (c *Ctx) resetPath(p []int) {
 	c.freshSeq = 0
 	c.numMemo = nil
 	c.syncMaps = nil
+	c.pools = nil
 	c.kf = nil
 	c.viols = nil
 	c.incomplete = nil
